@@ -8,6 +8,17 @@ from vlib.check import Machinery, VERIF
 
 TLA = os.path.join(VERIF, "tla")
 
+META = dict(
+    engine="tlc-replay",
+    technique="TLA+ spec Vfs.tla model-checked by TLC; spec behaviours (edge cover of the exhaustive state graph + "
+              "simulation) replayed into the public VFS/resource API with a per-state query battery",
+    text="TLC decides set semantics modulo the path-reduction key on Vfs.tla for all histories up to the bound; "
+         "every transition of the 3-operation graph and simulated 12-operation behaviours are replayed into "
+         "mj_addBufferVFS/mj_addFileVFS/mj_deleteFileVFS/mj_contains*VFS/mju_openResource and compared step by step.",
+    note="Trusted: TLC, harness vfs_drv.cc, Render() of abstract names; legacy base-name lookups with several "
+         "candidates are excluded (unordered_map iteration order).",
+    ref="DESIGN.md section 4 C39")
+
 
 def render(n):
     s = n["dots"]
